@@ -158,6 +158,42 @@ func uniWide(maxKids int) []*doc.Tree {
 	return out
 }
 
+// uniFlatNS: two parents, each with 1..maxKids children whose names range over
+// {a, p:a, q:a, b} (same local name under different prefixes side by side) —
+// what a sibling count must tell apart.
+func uniFlatNS(maxKids int) []*doc.Tree {
+	key := fmt.Sprintf("FlatNS%d", maxKids)
+	uniMu.Lock()
+	if t, ok := uniCache[key]; ok {
+		uniMu.Unlock()
+		return t
+	}
+	uniMu.Unlock()
+	names := []string{"a", "p:a", "q:a", "b"}
+	var out []*doc.Tree
+	for n := 1; n <= maxKids; n++ {
+		total := 1
+		for i := 0; i < n; i++ {
+			total *= len(names)
+		}
+		for code := 0; code < total; code++ {
+			c := code
+			var kids []doc.Spec
+			for i := 0; i < n; i++ {
+				kids = append(kids, doc.Spec{K: "e", N: names[c%len(names)], A: attrIf(i%2 == 1, "a", "1")})
+				c /= len(names)
+			}
+			// second parent: the same children rotated by one (another count per name)
+			rot := append(append([]doc.Spec{}, kids[1:]...), doc.Spec{K: "e", N: "a"})
+			out = append(out, doc.Build([]doc.Spec{{K: "e", N: "b", C: []doc.Spec{{K: "e", N: "a", C: kids}, {K: "e", N: "p:a", C: rot}}}}))
+		}
+	}
+	uniMu.Lock()
+	uniCache[key] = out
+	uniMu.Unlock()
+	return out
+}
+
 func uniTExact(n int) []*doc.Tree {
 	return trees(fmt.Sprintf("TE%d", n), &doc.Universe{MinN: n, MaxN: n, Names: []string{"a", "b"},
 		Attr: "rule", AttrNames: []string{"a", "x"}, Vals: []string{"1", "2", "x", ""}})
